@@ -936,8 +936,18 @@ class Flow:
         if deep and len(rds) == 1 and rds[0] != ("entry",) and rds[0][1] != "t":
             b, j = rds[0]
             st = self.fn.blocks[b]["s"][j]
-            if st[0] == "=" and st[2][0] == "use" and st[2][1][0] in ("c", "m") and len(st[2][1][1]) == 1 and st[2][1][1][0] != l:
-                return self.alternatives(st[2][1][1][0], b, j, deep)
+            if st[0] == "=":
+                rv = st[2]
+                src = None
+                if rv[0] == "use" and rv[1][0] in ("c", "m"):
+                    src = rv[1][1]
+                elif rv[0] == "ref":
+                    src = rv[2]
+                elif rv[0] == "cast" and rv[2][0] in ("c", "m"):
+                    src = rv[2][1]
+                # `_a = _b`, `_a = &*_b`, `_a = _b as T`: pure re-borrows / copies of a whole local
+                if src is not None and src[0] != l and all(p == "*" for p in src[1:]) and not (1 <= src[0] <= self.fn.argc):
+                    return self.alternatives(src[0], b, j, deep)
         out = []
         for d in rds:
             if d == ("entry",):
